@@ -277,9 +277,10 @@ class LFRicAlgInvoke2PSyCallTrans(AlgInvoke2PSyCallTrans):
         # all stencil arguments (separated into size arguments first
         # followed by direction arguments) and finally all qr
         # arguments).
-        arguments.extend(stencil_size_arguments)
-        arguments.extend(stencil_direction_arguments)
-        arguments.extend(quad_arguments)
+        # An expression that is already passed is not passed again.
+        for arg in (stencil_size_arguments + stencil_direction_arguments +
+                    quad_arguments):
+            self._add_arg(arg, arguments)
 
         return arguments
 
